@@ -305,6 +305,42 @@ func (x FV) ResolveTrace(stop func(*ssa.Function) bool) (FV, []FV) {
 				return FV{v, x.F}, trace
 			}
 			x = FV{sts[0].Val, x.F.Parent}
+		case *ssa.FieldAddr, *ssa.Field:
+			// a field of a struct built locally (a literal, possibly handed to a helper by value): the value it was
+			// given there
+			var bx ssa.Value
+			var fld *types.Var
+			switch z := y.(type) {
+			case *ssa.FieldAddr:
+				bx, fld = z.X, FieldOfAddr(z)
+			case *ssa.Field:
+				bx, fld = z.X, FieldOfAddr(z)
+			}
+			if _, isParamOrLocal := Strip(bx).(*ssa.Global); isParamOrLocal || fld == nil {
+				return FV{v, x.F}, trace
+			}
+			base := FV{bx, x.F}.Resolve(stop)
+			al, isAl := base.V.(*ssa.Alloc)
+			for k := 0; isAl && k < 4; k++ {
+				// a by-value copy (a spilled value receiver or parameter): go to what was copied
+				whole := StoresTo(al)
+				if len(whole) != 1 {
+					break
+				}
+				base = FV{whole[0].Val, base.F}.Resolve(stop)
+				al, isAl = base.V.(*ssa.Alloc)
+			}
+			if !isAl {
+				return FV{v, x.F}, trace
+			}
+			if _, isStruct := al.Type().(*types.Pointer).Elem().Underlying().(*types.Struct); !isStruct {
+				return FV{v, x.F}, trace
+			}
+			vals := LiteralFieldStores(al)[fld.Name()]
+			if len(vals) != 1 {
+				return FV{v, x.F}, trace
+			}
+			x = FV{vals[0], base.F}
 		case *ssa.Extract:
 			// one result of a helper with several results and a single return statement
 			call, isCall := y.Tuple.(*ssa.Call)
